@@ -99,6 +99,7 @@ def gen_c01(tier, rng):
     s += gen_family(rng, "m", "mutex", FIFO, scale(tier, 8, 60), [2, 3], [2, 3], "dfs 2 %d" % scale(tier, 2000, 30000))
     s += gen_family(rng, "n", "mutex", FIFO, scale(tier, 6, 60), [3, 4], [2, 3], lambda r: "rand %d %d" % (scale(tier, 200, 2000), r.randint(1, 1 << 30)))
     s += gen_lag_sweep(tier, rng, "s", mode=lambda r: "rand %d %d" % (scale(tier, 12, 60), r.randint(1, 1 << 30)))
+    s += gen_long_runs(tier, rng, "jdk")
     return s
 
 def gen_c07(tier, rng):
@@ -183,8 +184,26 @@ def gen_exhaustive_seq(tier, kind, prefix):
                 n += 1
     return out
 
+def gen_long_runs(tier, rng, kind="jdk", prefix="lr"):
+    """long single-goroutine scripts: many elements, long runs of consumed nodes at the head (polled, or removed through an
+    iterator) with nothing / one element / many elements behind them - depths that short scripts never reach"""
+    out = []
+    sizes = [17, 18, 33, 40, 70] if tier == "quick" else [16, 17, 18, 31, 32, 33, 40, 64, 65, 70, 130]
+    for i, n in enumerate(sizes):
+        offers = ["o%d" % v for v in range(1, n + 1)]
+        for k, tail in enumerate([[], ["o%d" % (n + 1)], ["o%d" % (n + 1), "o%d" % (n + 2), "o%d" % (n + 3)]]):
+            probes = ["e", "k", "z", "p", "e", "z"] + (["i", "n", "h"] if kind == "jdk" else [])
+            if kind == "jdk":
+                # remove the first n elements through an iterator (all, or all but the last), then look
+                rem = ["i"] + ["n", "r"] * (n if k % 2 == 0 else n - 1)
+                out.append(conc.Scn("%s%d_%da" % (prefix, n, k), kind, [], [offers + rem + tail + probes], "dfs 0 1", {"maxsteps": 60000}))
+            out.append(conc.Scn("%s%d_%db" % (prefix, n, k), kind, [], [offers + ["p"] * (n if k % 2 == 0 else n - 1) + tail + probes], "dfs 0 1", {"maxsteps": 60000}))
+    return out
+
 def gen_c15(tier, rng):
     s = []
+    s += gen_long_runs(tier, rng, "jdk")
+    s += gen_long_runs(tier, rng, "mutex", "lm")
     s += gen_exhaustive_seq(tier, "jdk", "xj")
     s += gen_exhaustive_seq(tier, "mutex", "xm")
     seq = ["o", "o", "o0", "p", "p", "k", "e", "z", "i", "n", "n", "h", "r"]
